@@ -26,6 +26,33 @@ TLA_CP = f'{TLA_JAR}:/opt/veriftools/tla/CommunityModules-deps.jar'
 NCPU = os.cpu_count() or 4
 
 
+def install_fastarena():
+    """Load the caching arena allocator (shim/native/fastarena.c) if it can be
+    built; a pure performance aid, silently skipped when unavailable."""
+    import ctypes
+    src = os.path.join(VERIF, 'shim', 'native', 'fastarena.c')
+    cache = os.path.join(VERIF, '.cache')
+    so = os.path.join(cache, 'fastarena.so')
+    try:
+        if (not os.path.exists(so)
+                or os.path.getmtime(so) < os.path.getmtime(src)):
+            os.makedirs(cache, exist_ok=True)
+            tmp = f'{so}.{os.getpid()}.tmp'
+            for cc in ('clang', 'gcc', 'cc'):
+                if shutil.which(cc):
+                    p = subprocess.run(
+                        [cc, '-O2', '-shared', '-fPIC', '-o', tmp, src, '-ldl'],
+                        stdout=subprocess.PIPE, stderr=subprocess.STDOUT)
+                    if p.returncode == 0:
+                        os.replace(tmp, so)
+                        break
+        if os.path.exists(so):
+            return ctypes.CDLL(so).fastarena_install() == 0
+    except Exception:
+        pass
+    return False
+
+
 class MachineryError(Exception):
     """The check itself is broken (exit 2) - never a verdict."""
 
